@@ -48,12 +48,12 @@ class _Runtime:
         for (label, cond) in _as_list(spec.inv(state, state)):
             c.oblige('inv-init', 'loop %s: %s' % (spec.name or k, label), cond)
 
-    def havoc(self, k, name, old):
+    def havoc(self, k, name, old, inplace_only=False):
         spec = self.loops[k]
         c = ctx()
         if name in spec.havoc:
             return spec.havoc[name](old, c)
-        return default_havoc(name, old, c, k)
+        return default_havoc(name, old, c, k, inplace_only)
 
     def assume(self, k, state):
         spec = self.loops[k]
@@ -168,14 +168,17 @@ def _as_list(x):
 _hv = [0]
 
 
-def default_havoc(name, old, c, k):
+def default_havoc(name, old, c, k, inplace_only=False):
     from .torchlib.tensor import Tensor
     _hv[0] += 1
     tag = 'hv%s_%s' % (k, name)
     if old is UNBOUND:
         return UNBOUND
     if isinstance(old, Tensor):
-        t = Tensor.input(tag, old._shape, old.dtype, origin='fresh')
+        # a name that the loop body only MUTATES in place (x[...] = ...) still denotes the object it denoted at loop entry: the
+        # havocked contents live in a storage of the same origin, so that a write into caller-owned data stays visible to frames
+        org = old.storage.origin if inplace_only else 'fresh'
+        t = Tensor.input(tag, old._shape, old.dtype, origin=org)
         t.deps = old.deps
         return t
     if isinstance(old, bool):
@@ -248,6 +251,29 @@ class _Cutter(ast.NodeTransformer):
         self.ordinal = -1
         self.depth = 0
 
+    def _rebound(self, body):
+        """names re-bound by a plain assignment / augmented assignment / loop target somewhere in the body"""
+        out = set()
+        for node in body:
+            for sub in ast.walk(node):
+                tgt = []
+                if isinstance(sub, ast.Assign):
+                    tgt = sub.targets
+                elif isinstance(sub, (ast.AugAssign, ast.AnnAssign)):
+                    tgt = [sub.target]
+                elif isinstance(sub, ast.For):
+                    tgt = [sub.target]
+                stack = list(tgt)
+                while stack:
+                    n = stack.pop()
+                    if isinstance(n, ast.Name):
+                        out.add(n.id)
+                    elif isinstance(n, (ast.Tuple, ast.List)):
+                        stack.extend(n.elts)
+                    elif isinstance(n, ast.Starred):
+                        stack.append(n.value)
+        return out
+
     def _assigned(self, body):
         names = []
         for node in body:
@@ -316,9 +342,10 @@ class _Cutter(ast.NodeTransformer):
             return node
         assigned = self._assigned(node.body)
         pre = [ast.Expr(ast.Call(ast.Attribute(ast.Name('__pfv', ast.Load()), 'init', ast.Load()), [ast.Constant(k), self._state(None)], []))]
+        rebound = self._rebound(node.body)
         for n in assigned:
             pre.append(ast.Assign([ast.Name(n, ast.Store())],
-                                  ast.Call(ast.Attribute(ast.Name('__pfv', ast.Load()), 'havoc', ast.Load()), [ast.Constant(k), ast.Constant(n), _cur(n)], [])))
+                                  ast.Call(ast.Attribute(ast.Name('__pfv', ast.Load()), 'havoc', ast.Load()), [ast.Constant(k), ast.Constant(n), _cur(n), ast.Constant(n not in rebound)], [])))
         pre.append(ast.Expr(ast.Call(ast.Attribute(ast.Name('__pfv', ast.Load()), 'assume', ast.Load()), [ast.Constant(k), self._state(None)], [])))
         body = list(node.body) + [ast.Expr(ast.Call(ast.Attribute(ast.Name('__pfv', ast.Load()), 'preserve', ast.Load()), [ast.Constant(k), self._state(None)], []))]
         cut = ast.If(node.test, body, [])
@@ -340,8 +367,9 @@ class _Cutter(ast.NodeTransformer):
         # loop variable at start for inv_init
         out.append(ast.Assign([ast.Name(v, ast.Store())], ast.Attribute(ast.Name('__rng%d' % k, ast.Load()), 'start', ast.Load())))
         out.append(ast.Expr(P('init', [ast.Constant(k), self._state(None)])))
+        rebound = self._rebound(node.body)
         for n in assigned:
-            out.append(ast.Assign([ast.Name(n, ast.Store())], P('havoc', [ast.Constant(k), ast.Constant(n), _cur(n)])))
+            out.append(ast.Assign([ast.Name(n, ast.Store())], P('havoc', [ast.Constant(k), ast.Constant(n), _cur(n), ast.Constant(n not in rebound)])))
         out.append(ast.Assign([ast.Name(v, ast.Store())], P('havoc', [ast.Constant(k), ast.Constant(v), ast.Constant(0)])))
         # the havocked loop variable ranges over start <= v <= stop ; v < stop = an iteration, v == stop = exit
         out.append(ast.Expr(P('assume_range', [ast.Constant(k), ast.Name(v, ast.Load()), ast.Name('__rng%d' % k, ast.Load())])))
